@@ -28,7 +28,7 @@ def run_doc(fmt, seed, feature=None, twin=False, want=("c02", "c03", "c13", "c14
     out["n_images"] = len(r.get("images", []))
     out["errors"] = {k: v for k, v in r.items() if k.endswith("_error")}
     if "c02" in want:
-        out["c02"] = E.check_text(exp, r["full_text"])
+        out["c02"] = E.check_text(exp, r["full_text"]) + E.check_table_text(exp, r["tables"])
     if "c03" in want:
         out["c03"] = E.check_units(exp, r["units"], r["full_text"])
         out["unit_numbers"] = [u.get("number") for u in r["units"]]
